@@ -175,7 +175,11 @@ Definition stack_spec_b (x : input nat nat) (certs : list (certarg nat)) (must :
           (negb (same_on_b keys5 (q x) args) || Bool.eqb acc reg)
           && (negb acc || (reg && same_on_b (keys4 x) (q x) args))
       | _ => true
-      end).
+      end)
+  (* (strengthening round 6) "an unsupported SigAlg is never treated as verified" at the receiving entry point:
+     where signatures are required, a request is accepted only with a SigAlg of the five allowed ones - also when
+     the library refused to sign (so is an exception) and the URL presented was made elsewhere *)
+  && (negb must || negb acc || match get (q x) K_ALG with Some a => mem a spec_allowed | None => false end).
 
 (* a life: every reception satisfies the stack spec with the certificates that the receiver's metadata holds NOW
    for the request's issuer (Spec.published_now: the last reload that succeeded, looking back from the reception;
